@@ -82,21 +82,22 @@ type wbuild struct {
 	g    genCfg
 	mode string
 
-	mu         sync.Mutex
-	U          *Universe // what is on disk of the active machine
-	M          *Machine
-	inv        int
-	events     []ExecEvent
-	running    int
-	maxRun     int
-	ranBin     []string
-	curOpts    InvOpts
-	dirInWay   map[string]bool
-	diskBefore map[string]Listing
-	toggled    map[string]bool
-	force      []string
-	long       bool
-	live       map[*simexec.Invocation]string
+	mu           sync.Mutex
+	U            *Universe // what is on disk of the active machine
+	M            *Machine
+	inv          int
+	events       []ExecEvent
+	running      int
+	maxRun       int
+	ranBin       []string
+	curOpts      InvOpts
+	dirInWay     map[string]bool
+	diskBefore   map[string]Listing
+	toggled      map[string]bool
+	force        []string
+	long         bool
+	alwaysDamage bool
+	live         map[*simexec.Invocation]string
 	// remote mode: epoch of the result the remote namespace holds per key (non-hermetic targets)
 	remoteNH map[string]string
 	// strict keys whose result the last checked build recorded (executed successfully, cacheable)
